@@ -563,9 +563,15 @@ class DateTime(Column):
             else:
                 raise ValidationError("{0} '{1}' is not a datetime object".format(self.column_name, value))
         epoch = datetime(1970, 1, 1, tzinfo=value.tzinfo)
-        offset = get_total_seconds(epoch.tzinfo.utcoffset(epoch)) if epoch.tzinfo else 0
+        # the UTC offset in effect at the value itself (it differs from the offset at the epoch under DST)
+        offset = value.utcoffset() or timedelta(0)
+        # value and epoch share their tzinfo, so this is the wall-clock difference; integer arithmetic on the
+        # timedelta fields keeps the exact millisecond (a float product can fall just below it)
+        delta = value - epoch - offset
+        micros = (delta.days * 86400 + delta.seconds) * 1000000 + delta.microseconds
 
-        return int((get_total_seconds(value - epoch) - offset) * 1000)
+        # digits below one millisecond are dropped (towards zero, as int() did and as the core driver does)
+        return micros // 1000 if micros >= 0 else -(-micros // 1000)
 
 
 class Date(Column):
